@@ -114,7 +114,7 @@ func notRendered(n *html.Node) bool {
 		return false
 	}
 	switch n.Data {
-	case "script", "style", "head", "meta", "link", "title":
+	case "script", "style":
 		return true
 	}
 	if hasAttr(n, "hidden") || attr(n, "aria-hidden") == "true" {
